@@ -707,6 +707,211 @@ def corr_kv(ctx, drv):
                 ctx.disagree({'kind': 'bodyparse', 'text': text[:300]}, None, None, 'body parse: ' + str(G.first_diff(impl['items'], mi['items'])))
 
 
+# ----------------------------------------------------------------------------------------- whole entities / files
+
+def helper_json(h):
+    from srctools.fgd import UnknownHelper
+    name = h.name if isinstance(h, UnknownHelper) else h.TYPE.value
+    return [codes(name), [codes(a) for a in h.export()]]
+
+
+def ent_rec_json(ent):
+    """EntityDef -> the E record of the driver (op entexport)."""
+    from srctools.fgd import EntityTypes, EntityDef
+    from srctools.const import FileType
+    groups = [[codes(key), [[[codes(t) for t in sorted(tags)], kv_json(kv)] for tags, kv in m.items()]] for key, m in ent.keyvalues.items()]
+    def ios(coll):
+        return [[[codes(t) for t in sorted(tags)], io_json(v)] for m in coll.values() for tags, v in m.items()]
+    res = None if (isinstance(ent.resources, tuple) and ent.resources == ()) else \
+        [[codes(r.filename), list(FileType).index(r.type), [codes(t) for t in sorted(r.tags)]] for r in ent.resources]
+    return [list(EntityTypes).index(ent.type), codes(ent.classname),
+            [codes(b.classname if isinstance(b, EntityDef) else b) for b in ent.bases], bool(ent.is_alias),
+            [helper_json(h) for h in ent.helpers], codes(ent.desc), groups, [codes(k) for k in ent.kv_order],
+            ios(ent.inputs), ios(ent.outputs), res]
+
+
+def parsed_ent_json(ent):
+    """EntityDef (as parsed by the implementation) -> the PE record of the driver (op fileparse)."""
+    from srctools.fgd import EntityTypes, EntityDef
+    from srctools.const import FileType
+    items = []
+    for name in ent.keyvalues:
+        for tags, kv in ent.keyvalues[name].items():
+            items.append(['kv', sorted(codes(t) for t in tags), kv_json(kv)])
+    for key, coll in (('in', ent.inputs), ('out', ent.outputs)):
+        for name in coll:
+            for tags, io_ in coll[name].items():
+                items.append([key, sorted(codes(t) for t in tags), io_json(io_)])
+    res = None if (isinstance(ent.resources, tuple) and ent.resources == ()) else \
+        [[codes(r.filename), list(FileType).index(r.type), sorted(codes(t) for t in r.tags)] for r in ent.resources]
+    return [list(EntityTypes).index(ent.type), codes(ent.classname),
+            [codes(b.classname if isinstance(b, EntityDef) else b) for b in ent.bases], bool(ent.is_alias),
+            [helper_json(h) for h in ent.helpers], codes(ent.desc), items, res]
+
+
+def _model_parsed(m):
+    if 'perr' in m or m['run']['err'] is not None:
+        return {'err': 'model'}
+    out = []
+    for e in m['ents']:
+        mi = _model_items({'run': {'err': None}, 'items': e[6]})['items']
+        res = None if e[7] is None else [[r[0], r[1], sorted(r[2])] for r in e[7]]
+        out.append([e[0], e[1], e[2], e[3], e[4], e[5], mi, res])
+    return {'ents': out}
+
+
+def impl_parse_file(text):
+    try:
+        fgd = G.parse_text(text)
+    except Exception as e:
+        if 'Invalid helper arguments' in str(e) or 'requires' in str(e):
+            return {'skip': True}      # a typed helper of _fgd_helpers.py rejected its (damaged) arguments: outside the generic helper model
+        return {'err': type(e).__name__}
+    if fgd.auto_visgroups or fgd.map_size_min != fgd.map_size_max or fgd.mat_exclusions or fgd.tagged_mat_exclusions:
+        return {'skip': True}
+    return {'ents': [parsed_ent_json(e) for e in fgd.entities.values()]}
+
+
+def plain_file(fgd):
+    return not (fgd.auto_visgroups or fgd.map_size_min != fgd.map_size_max or fgd.mat_exclusions or fgd.tagged_mat_exclusions)
+
+
+def corr_ent(ctx, drv):
+    rng = ctx.rng
+    reqs, meta = [], []
+    texts = []
+    for i in range(ctx.budget(120, 1500)):
+        cs = rng.random() < 0.75
+        ls = rng.random() < 0.5
+        fgd = G.gen_fgd(random.Random(rng.getrandbits(48)), {'tags': rng.random() < 0.4, 'long_p': rng.choice([0.0, 0.1]), 'plain': not cs,
+                                                            'empty_choice_names': True})
+        fgd.map_size_min = fgd.map_size_max = 0
+        try:
+            text = G.export_guarded(fgd, custom_syntax=cs, label_spawnflags=ls)
+            ents = list(fgd.sorted_ents())
+        except Exception:
+            continue
+        fold, up = case_tables(text)
+        reqs.append({'op': 'entexport', 'ext': cs, 'label': ls, 'fold': fold, 'up': up, 'ents': [ent_rec_json(e) for e in ents]})
+        meta.append(('entexport', text, len(ents)))
+        ctx.case({'entfile': len(ents), 'cs': cs, 'ls': ls, 'len': len(text)}, nontrivial=True, sample_every=211)
+        ctx.count('entfile:generated')
+        ctx.count('entfile:entities', len(ents))
+        texts.append((text, False))
+        if rng.random() < 0.6 and len(text) < 6000:
+            b = list(text)
+            for _ in range(rng.randrange(1, 3)):
+                k = rng.randrange(len(b))
+                r = rng.random()
+                if r < 0.35:
+                    del b[k]
+                elif r < 0.7:
+                    b.insert(k, rng.choice(MUT_CHARS))
+                elif r < 0.85 and k + 1 < len(b):
+                    b[k], b[k + 1] = b[k + 1], b[k]
+                else:
+                    b.insert(k, b[k])
+            texts.append((''.join(b), True))
+    # the shipped entities, one by one (quick: a sample; thorough: all)
+    full = _STATE.get('full')
+    if full is None:
+        from srctools.fgd import FGD
+        full = _STATE['full'] = FGD.engine_dbase()
+    ships = list(full.sorted_ents())
+    if not ctx.thorough:
+        ships = rng.sample(ships, 250)
+    for k in range(0, len(ships), 50):
+        chunk = ships[k:k + 50]
+        text = ''
+        for e in chunk:
+            f = io.StringIO()
+            e.export(f)
+            text += '\n' + f.getvalue()
+        fold, up = case_tables(text[:20000])
+        reqs.append({'op': 'entexport', 'ext': True, 'label': True, 'fold': fold, 'up': up, 'ents': [ent_rec_json(e) for e in chunk]})
+        meta.append(('entexport', text, len(chunk)))
+        ctx.count('entfile:shipped-entities', len(chunk))
+        ctx.count('entfile:shipped-good', sum(1 for e in chunk if ent_good(e)))
+    for text, damaged in texts:
+        fold, up = case_tables(text)
+        reqs.append({'op': 'fileparse', 's': codes(text), 'fold': fold, 'up': up})
+        meta.append(('fileparse-damaged' if damaged else 'fileparse', text, impl_parse_file(text)))
+    for (kind, text, extra), m in zip(meta, drv.batch(reqs, timeout=1800)):
+        ctx.traces_vs_impl += 1
+        if kind == 'entexport':
+            if m.get('text') != codes(text):
+                mt = uncodes(m.get('text', []))
+                k = next((i for i, (a, b) in enumerate(zip(text, mt)) if a != b), min(len(text), len(mt)))
+                ctx.disagree({'kind': kind, 'ents': extra}, text[max(0, k - 40):k + 40], mt[max(0, k - 40):k + 40], f'entity text at offset {k}')
+        else:
+            impl = extra
+            if impl.get('skip'):
+                continue
+            ctx.count('fileparse:' + ('err' if 'err' in impl else 'ok'))
+            mi = _model_parsed(m)
+            if ('err' in impl) != ('err' in mi):
+                ctx.disagree({'kind': 'fileparse', 'text': text[:400]}, impl if 'err' in impl else 'ok', m.get('perr', m['run']['err']) if 'err' in mi else 'ok', 'file parse: accept/reject')
+            elif 'err' not in impl:
+                a, b = json.loads(json.dumps(impl['ents'])), json.loads(json.dumps(mi['ents']))
+                if len(a) == len(b) and kind == 'fileparse-damaged':
+                    from srctools.fgd import HelperTypes
+                    known = {codes_t for codes_t in (tuple(codes(h.value)) for h in HelperTypes)}
+                    for ea, eb in zip(a, b):
+                        # typed helpers re-normalise their arguments (Vec formatting, defaults): compare their names only
+                        for hl in (ea[4], eb[4]):
+                            for h in hl:
+                                if tuple(h[0]) in known:
+                                    h[1] = 'typed'
+                if a != b:
+                    ctx.disagree({'kind': 'fileparse', 'text': text[:400]}, None, None, 'file parse: ' + str(G.first_diff(a, b)))
+
+
+_BARE_BAD = set('\t\n\r "\'(),;=[]{}:+')
+
+
+def _bare_ok(s):
+    return bool(s) and s[0] not in '/#' and not (set(s) & _BARE_BAD) and '\ufeff' not in s
+
+
+def ent_good(ent):
+    """Python mirror of the decidable hypotheses of C16_entity_roundtrip (EntGood): identifier-shaped names, helper
+    arguments without comma / parenthesis / surrounding blanks, keyvalues as in KvGood."""
+    from srctools.fgd import EntityDef, ValueTypes, RESTYPE_TO_NAME
+    if not _bare_ok(ent.classname) or ent.type.name == 'EXTEND':
+        return False
+    for b in ent.bases:
+        n = b.classname if isinstance(b, EntityDef) else b
+        if not n or set(n) & set(',()') or n != n.strip():
+            return False
+    for h in ent.helpers:
+        hj = helper_json(h)
+        name = uncodes(hj[0])
+        if not _bare_ok(name) or name in ('base', 'aliasof', 'autovis'):
+            return False
+        args = [uncodes(a) for a in hj[1]]
+        if args == [''] or any(set(a) & set(',()') or a != a.strip() for a in args):
+            return False
+    for m in ent.keyvalues.values():
+        for tags, kv in m.items():
+            if not _bare_ok(kv.name) or kv.name.casefold() in ('input', 'output', '@resources') or kv.custom_type is not None:
+                return False
+            if kv.type is ValueTypes.SPAWNFLAGS and (kv.default or kv.desc):
+                return False
+            if kv.type is ValueTypes.SPAWNFLAGS and any(v[0] <= 0 or v[0] & (v[0] - 1) for v in (kv.val_list or [])):
+                return False
+            if kv.type is ValueTypes.CHOICES and any(not plain_ok(v[1].replace('\n', ' ')) for v in (kv.val_list or [])):
+                return False
+    for coll in (ent.inputs, ent.outputs):
+        for m in coll.values():
+            for tags, v in m.items():
+                if not _bare_ok(v.name) or v.custom_type is not None:
+                    return False
+    if ent.resources != ():
+        if any(r.type not in RESTYPE_TO_NAME for r in ent.resources):
+            return False
+    return True
+
+
 # ----------------------------------------------------------------------------------------- lazy database
 
 def build_engine_db(layout, cbase_payload=7):
@@ -905,6 +1110,7 @@ def correspond(ctx, drivers):
     guard(ctx, 'string dictionary', corr_dict, ctx, drv)
     guard(ctx, 'records', corr_records, ctx, drv)
     guard(ctx, 'keyvalue / IO lines', corr_kv, ctx, drv)
+    guard(ctx, 'whole entities / files', corr_ent, ctx, drv)
     guard(ctx, 'lazy database', _corr_lazy_all, ctx, drv)
     ctx.exhaustive = False
 
